@@ -85,3 +85,24 @@ impl FeoxStore {
         self.version_clock.shards[shard].load(Ordering::Relaxed)
     }
 }
+
+/// H14: a fresh VersionClock driven call by call on one key (one shard), starting from `start`.
+/// Ops are (0, wall) = `next(key, wall)` and (1, ts) = `observe(key, ts)`; the answer per op is
+/// (timestamp returned by next, or 0; the shard's value after the call).
+pub fn verif_clock_sim(start: u64, ops: &[(u8, u64)]) -> Vec<(u64, u64)> {
+    let clock = super::VersionClock::new(ahash::RandomState::new());
+    let key = b"clock-key";
+    let shard = clock.shard_index(key);
+    clock.shards[shard].store(start, Ordering::Relaxed);
+    ops.iter()
+        .map(|&(code, x)| {
+            let issued = if code == 0 {
+                clock.next(key, x)
+            } else {
+                clock.observe(key, x);
+                0
+            };
+            (issued, clock.shards[shard].load(Ordering::Relaxed))
+        })
+        .collect()
+}
